@@ -420,25 +420,29 @@ def oracle_key(spec):
             o.add("key-not-best-correlated-profile", got=name, expected=list(best), gap=gap, weights=w)
     else:
         o.excluded.append("best-key-not-judged-near-tie-or-constant")
+    # the two exact claims compare like with like: when the first estimate was made on an object (whose own
+    # note array may sum the durations in another unit / precision, which decides exact ties differently),
+    # the unshifted reference is taken on the plain array as well
+    exact_ref = name if given is None else _estimate_key(arr, option)
     # octave shifts: exact claim
     k12 = _fit_shift(pitches, 12 * spec["octaves"], 12 * 2 * abs(spec["octaves"]))
     if k12 is None:
         k12 = _fit_shift(pitches, 12, 24)
     if k12 is not None:
-        got = _estimate_key(G.build_array(spec, pitch_shift=k12), option)
-        if got != name:
-            o.add("key-changed-by-octave-shift", shift=k12, before=name, after=got)
+        got = _estimate_key(G.build_array(spec, pitch_shift=k12, order=order), option)
+        if got != exact_ref:
+            o.add("key-changed-by-octave-shift", shift=k12, before=exact_ref, after=got)
     else:
         o.excluded.append("octave-shift-leaves-21..108")
     # power-of-two duration scaling: exact claim
     j = abs(spec["pow2"]) if isint else spec["pow2"]
-    got = _estimate_key(G.build_array(spec, dur_scale=2.0 ** j), option)
-    if got != name:
-        o.add("key-changed-by-power-of-two-duration-scaling", exponent=j, before=name, after=got)
+    got = _estimate_key(G.build_array(spec, dur_scale=2.0 ** j, order=order), option)
+    if got != exact_ref:
+        o.add("key-changed-by-power-of-two-duration-scaling", exponent=j, before=exact_ref, after=got)
     # other factors: float32 rounding of the durations, judged away from ties
     f = max(2, int(round(spec["factor"]))) if isint else float(np.float32(spec["factor"]))
     if best is not None and gap > 1e-5:
-        got = _estimate_key(G.build_array(spec, dur_scale=f), option)
+        got = _estimate_key(G.build_array(spec, dur_scale=f, order=order), option)
         if got != name:
             o.add("key-changed-by-duration-scaling", factor=f, before=name, after=got, gap=gap)
         o.cls("scaling-judged")
@@ -451,7 +455,7 @@ def oracle_key(spec):
     elif best is None or gap <= 1e-9:
         o.excluded.append("transposition-not-judged-near-tie-or-constant")
     else:
-        got = _estimate_key(G.build_array(spec, pitch_shift=k), option)
+        got = _estimate_key(G.build_array(spec, pitch_shift=k, order=order), option)
         o.cls("transposition-judged")
         if not isinstance(got, str) or got not in K.KEY_OF_NAME:
             o.add("key-not-a-valid-name", got=repr(got)[:80], transposed_by=k)
